@@ -91,7 +91,7 @@ class Tape:
 class Task:
     __slots__ = ('sim', 'tid', 'name', 'fn', 'baton', 'state', 'pred', 'deadline',
                  'timed_out', 'exc', 'ident', 'thread_obj', 'exited', 'waiting_on',
-                 'daemon')
+                 'daemon', 'clock_reads')
 
     def __init__(self, sim, tid, name, fn):
         self.sim = sim
@@ -101,6 +101,7 @@ class Task:
         self.baton = _real_allocate()
         self.baton.acquire()
         self.state = 'new'          # runnable / blocked / done
+        self.clock_reads = 0        # clock reads since the task last blocked (see _tick)
         self.pred = None
         self.deadline = None
         self.timed_out = False
@@ -379,6 +380,7 @@ class Sim:
             self._schedule()
             return bool(pred())
         t.state = 'blocked'
+        t.clock_reads = 0
         t.pred = pred
         t.waiting_on = what
         t.deadline = None if timeout is None else self.now + timeout
@@ -610,13 +612,41 @@ class _Callable:
         return self.fn(*a, **k)
 
 
+SPIN_READS = 5000            # a task reading the clock that often without blocking or locking is spinning
+SPIN_TICK = 1e-2
+
+
+def _tick(sim):
+    """a clock read costs time; a task that spins on the clock (a loop which never blocks) is pre-empted like on a
+    real machine and its reads get coarser, so that the run reaches its horizon"""
+    t = sim.by_ident[_real_get_ident()]
+    t.clock_reads += 1
+    if t.clock_reads <= SPIN_READS:
+        sim.now += TICK
+        return
+    sim.now += SPIN_TICK
+    sim.counters['kernel.spinning-task-preempted'] = sim.counters.get('kernel.spinning-task-preempted', 0) + 1
+    sim.yield_point()
+
+
+def _after_end(sim):
+    """the run is over: a task still spinning on the clock must end like the tasks blocked in the kernel do"""
+    if sim.finished:
+        t = sim.by_ident.get(_real_get_ident())
+        if t is not None:
+            t.clock_reads += 1
+            if t.clock_reads > SPIN_READS:
+                raise SimAbort()
+
+
 def sim_time():
     sim = SIM
     if sim is None:
         return _real_time()
     if sim.finished or _real_get_ident() not in sim.by_ident:
+        _after_end(sim)
         return sim.now + sim.wall_offset
-    sim.now += TICK
+    _tick(sim)
     return sim.now + sim.wall_offset
 
 
@@ -625,8 +655,9 @@ def sim_monotonic():
     if sim is None:
         return _real_monotonic()
     if sim.finished or _real_get_ident() not in sim.by_ident:
+        _after_end(sim)
         return sim.now - EPOCH + MONO0
-    sim.now += TICK
+    _tick(sim)
     return sim.now - EPOCH + MONO0
 
 
